@@ -556,7 +556,7 @@ func runBatchChild(cfg RunConfig, job batchJob) *BatchResult {
 	inflight := filepath.Join(cfg.VerifDir, ".build", fmt.Sprintf("inflight.%d.%s.%d.%d", os.Getpid(), cfg.Prop, job.seed, job.batch))
 	_ = os.Remove(inflight)
 	defer os.Remove(inflight)
-	out, code := runSelfEnv(cfg.Self, 45*time.Minute, []string{env, "VERIF_INFLIGHT_FILE=" + inflight}, args...)
+	out, code := runSelfEnv(cfg.Self, 45*time.Minute, []string{env, "VERIF_INFLIGHT_FILE=" + inflight, "VERIF_BATCH_INDEX=" + strconv.Itoa(job.batch)}, args...)
 	m := jsonLine.FindStringSubmatch(out)
 	if m == nil {
 		// the child died: if it had announced what it was about to run, that is a
